@@ -29,6 +29,10 @@ import (
 type V struct {
 	e fr.Element
 	n *Node
+	// t: taint depth. 0 = independent of any substituted hint output; 1 = a substituted output or
+	// anything computed from it by arithmetic, bit decomposition, limb splitting or gnark's own
+	// hints; each MulAdd/Reduce/Inverse hint on the way adds 1.
+	t uint16
 }
 
 // Big returns the canonical integer value of v.
@@ -84,6 +88,10 @@ type Result struct {
 	Injected      []Injection
 	LumpedBits    int // gnark bit-decomposition hints answered dishonestly (LumpBits)
 	TolerantHints int // honest hint functions that panicked/erred and were replaced by a tolerant copy
+	// RejectTainted: the failing assertion had an operand computed (by arithmetic, bit
+	// decomposition, gnark's own hints or limb splitting only) from a substituted hint output
+	RejectTainted bool
+	RejectDepth   int // smallest non-zero taint depth among the failing assertion's operands (0 = none)
 }
 
 type Engine struct {
@@ -102,7 +110,7 @@ func (e nativeEngine) Check(v frontend.Variable, bits int) {
 	e.res.NCheck++
 	x := e.val(v)
 	if x.Big().BitLen() > bits {
-		e.reject(fmt.Sprintf("rangecheck: %s does not fit %d bits", x.Big().String(), bits))
+		e.rejectT(fmt.Sprintf("rangecheck: %s does not fit %d bits", x.Big().String(), bits), x)
 	}
 	if e.mon != nil {
 		e.mon.onWidth(e.Engine, x, bits)
@@ -115,11 +123,13 @@ type commitEngine struct{ *Engine }
 func (e commitEngine) Commit(v ...frontend.Variable) (frontend.Variable, error) {
 	e.res.NCommit++
 	h := sha256.New()
-	for _, x := range v {
-		b := e.val(x).e.Bytes()
-		h.Write(b[:])
-	}
 	r := new(V)
+	for _, x := range v {
+		xv := e.val(x)
+		b := xv.e.Bytes()
+		h.Write(b[:])
+		r.t = maxT(r.t, xv.t)
+	}
 	r.e.SetBytes(h.Sum(nil))
 	if e.mon != nil {
 		r.n = leafNode()
@@ -135,7 +145,9 @@ func (e commitEngine) BatchInvert(in []frontend.Variable) []frontend.Variable {
 	inv := fr.BatchInvert(vs)
 	out := make([]frontend.Variable, len(in))
 	for i := range inv {
-		out[i] = e.newV(inv[i])
+		o := e.newV(inv[i])
+		o.t = e.val(in[i]).t
+		out[i] = o
 	}
 	return out
 }
@@ -146,6 +158,32 @@ func (e *Engine) newV(x fr.Element) *V {
 		v.n = leafNode()
 	}
 	return v
+}
+
+// rejectT is reject for an assertion over the given operands.
+func (e *Engine) rejectT(msg string, vs ...*V) {
+	for _, v := range vs {
+		e.noteT(v.t)
+	}
+	site := ""
+	if !e.opt.NoSite {
+		site = repoSite(3, 4)
+	}
+	panic(rejectPanic{msg, site})
+}
+
+func (e *Engine) noteT(t uint16) {
+	if t != 0 && (e.res.RejectDepth == 0 || int(t) < e.res.RejectDepth) {
+		e.res.RejectTainted = true
+		e.res.RejectDepth = int(t)
+	}
+}
+
+func maxT(a, b uint16) uint16 {
+	if a > b {
+		return a
+	}
+	return b
 }
 
 func (e *Engine) reject(msg string) {
@@ -230,12 +268,14 @@ func (e *Engine) Add(i1, i2 frontend.Variable, in ...frontend.Variable) frontend
 	a, b := e.val(i1), e.val(i2)
 	r := new(V)
 	r.e.Add(&a.e, &b.e)
+	r.t = maxT(a.t, b.t)
 	if e.mon != nil {
 		r.n = &Node{kind: kAdd, a: e.nd(a), b: e.nd(b)}
 	}
 	for _, x := range in {
 		xv := e.val(x)
 		r.e.Add(&r.e, &xv.e)
+		r.t = maxT(r.t, xv.t)
 		if e.mon != nil {
 			r.n = &Node{kind: kAdd, a: r.n, b: e.nd(xv)}
 		}
@@ -248,6 +288,7 @@ func (e *Engine) MulAcc(a, b, c frontend.Variable) frontend.Variable {
 	r := new(V)
 	r.e.Mul(&bv.e, &cv.e)
 	r.e.Add(&r.e, &av.e)
+	r.t = maxT(av.t, maxT(bv.t, cv.t))
 	if e.mon != nil {
 		r.n = &Node{kind: kMulAcc, a: e.nd(av), b: e.nd(bv), c: e.nd(cv)}
 	}
@@ -257,6 +298,7 @@ func (e *Engine) Neg(i1 frontend.Variable) frontend.Variable {
 	e.res.NOps++
 	r := new(V)
 	r.e.Neg(&e.val(i1).e)
+	r.t = e.val(i1).t
 	if e.mon != nil {
 		r.n = leafNode()
 	}
@@ -266,8 +308,10 @@ func (e *Engine) Sub(i1, i2 frontend.Variable, in ...frontend.Variable) frontend
 	e.res.NOps++
 	r := new(V)
 	r.e.Sub(&e.val(i1).e, &e.val(i2).e)
+	r.t = maxT(e.val(i1).t, e.val(i2).t)
 	for _, x := range in {
 		r.e.Sub(&r.e, &e.val(x).e)
+		r.t = maxT(r.t, e.val(x).t)
 	}
 	if e.mon != nil {
 		r.n = leafNode()
@@ -279,12 +323,14 @@ func (e *Engine) Mul(i1, i2 frontend.Variable, in ...frontend.Variable) frontend
 	a, b := e.val(i1), e.val(i2)
 	r := new(V)
 	r.e.Mul(&a.e, &b.e)
+	r.t = maxT(a.t, b.t)
 	if e.mon != nil {
 		r.n = &Node{kind: kMul, a: e.nd(a), b: e.nd(b)}
 	}
 	for _, x := range in {
 		xv := e.val(x)
 		r.e.Mul(&r.e, &xv.e)
+		r.t = maxT(r.t, xv.t)
 		if e.mon != nil {
 			r.n = &Node{kind: kMul, a: r.n, b: e.nd(xv)}
 		}
@@ -302,22 +348,26 @@ func (e *Engine) Div(i1, i2 frontend.Variable) frontend.Variable {
 	e.res.NOps++
 	b := e.val(i2)
 	if b.e.IsZero() {
-		e.reject("div by zero")
+		e.rejectT("div by zero", b)
 	}
 	var r fr.Element
 	r.Inverse(&b.e)
 	r.Mul(&r, &e.val(i1).e)
-	return e.newV(r)
+	o := e.newV(r)
+	o.t = maxT(b.t, e.val(i1).t)
+	return o
 }
 func (e *Engine) Inverse(i1 frontend.Variable) frontend.Variable {
 	e.res.NOps++
 	b := e.val(i1)
 	if b.e.IsZero() {
-		e.reject("inverse of zero")
+		e.rejectT("inverse of zero", b)
 	}
 	var r fr.Element
 	r.Inverse(&b.e)
-	return e.newV(r)
+	o := e.newV(r)
+	o.t = b.t
+	return o
 }
 func (e *Engine) ToBinary(i1 frontend.Variable, n ...int) []frontend.Variable {
 	e.res.NBinary++
@@ -328,7 +378,7 @@ func (e *Engine) ToBinary(i1 frontend.Variable, n ...int) []frontend.Variable {
 	x := e.val(i1)
 	b := x.Big()
 	if b.BitLen() > nb {
-		e.reject(fmt.Sprintf("ToBinary: %s does not fit %d bits", b.String(), nb))
+		e.rejectT(fmt.Sprintf("ToBinary: %s does not fit %d bits", b.String(), nb), x)
 	}
 	if e.mon != nil {
 		e.mon.onWidth(e, x, nb)
@@ -337,6 +387,7 @@ func (e *Engine) ToBinary(i1 frontend.Variable, n ...int) []frontend.Variable {
 	for i := range out {
 		v := new(V)
 		v.e.SetUint64(uint64(b.Bit(i)))
+		v.t = x.t
 		if e.mon != nil {
 			v.n = &Node{kind: kLeaf, ub: one}
 		}
@@ -352,7 +403,7 @@ func (e *Engine) boolv(i frontend.Variable) bool {
 	if v.e.IsOne() {
 		return true
 	}
-	e.reject("not boolean: " + v.e.String())
+	e.rejectT("not boolean: "+v.e.String(), v)
 	return false
 }
 func (e *Engine) FromBinary(b ...frontend.Variable) frontend.Variable {
@@ -365,6 +416,7 @@ func (e *Engine) FromBinary(b ...frontend.Variable) frontend.Variable {
 	}
 	v := new(V)
 	v.e.SetBigInt(r)
+	v.t = e.anyT(b...)
 	if e.mon != nil {
 		ub := new(big.Int).Lsh(one, uint(len(b)))
 		v.n = &Node{kind: kLeaf, ub: ub.Sub(ub, one)}
@@ -373,6 +425,17 @@ func (e *Engine) FromBinary(b ...frontend.Variable) frontend.Variable {
 }
 
 var one = big.NewInt(1)
+
+func (e *Engine) anyT(xs ...frontend.Variable) uint16 {
+	var t uint16
+	for _, x := range xs {
+		if v, ok := x.(*V); ok && v.t > t {
+			t = v.t
+		}
+	}
+	return t
+}
+func (e *Engine) tv(v *V, xs ...frontend.Variable) *V { v.t = e.anyT(xs...); return v }
 
 func (e *Engine) bv(b bool) *V {
 	v := new(V)
@@ -385,15 +448,15 @@ func (e *Engine) bv(b bool) *V {
 	return v
 }
 func (e *Engine) Xor(a, b frontend.Variable) frontend.Variable {
-	return e.bv(e.boolv(a) != e.boolv(b))
+	return e.tv(e.bv(e.boolv(a) != e.boolv(b)), a, b)
 }
 func (e *Engine) Or(a, b frontend.Variable) frontend.Variable {
 	x, y := e.boolv(a), e.boolv(b)
-	return e.bv(x || y)
+	return e.tv(e.bv(x || y), a, b)
 }
 func (e *Engine) And(a, b frontend.Variable) frontend.Variable {
 	x, y := e.boolv(a), e.boolv(b)
-	return e.bv(x && y)
+	return e.tv(e.bv(x && y), a, b)
 }
 func (e *Engine) Select(b frontend.Variable, i1, i2 frontend.Variable) frontend.Variable {
 	e.res.NOps++
@@ -403,9 +466,9 @@ func (e *Engine) Select(b frontend.Variable, i1, i2 frontend.Variable) frontend.
 		res = x
 	}
 	if e.mon != nil {
-		return &V{e: res.e, n: &Node{kind: kMax, a: e.nd(x), b: e.nd(y)}}
+		return e.tv(&V{e: res.e, n: &Node{kind: kMax, a: e.nd(x), b: e.nd(y)}}, b, i1, i2)
 	}
-	return &V{e: res.e}
+	return e.tv(&V{e: res.e}, b, i1, i2)
 }
 func (e *Engine) Lookup2(b0, b1 frontend.Variable, i0, i1, i2, i3 frontend.Variable) frontend.Variable {
 	e.res.NOps++
@@ -420,18 +483,19 @@ func (e *Engine) Lookup2(b0, b1 frontend.Variable, i0, i1, i2, i3 frontend.Varia
 	if e.mon != nil {
 		m1 := &Node{kind: kMax, a: e.nd(vs[0]), b: e.nd(vs[1])}
 		m2 := &Node{kind: kMax, a: e.nd(vs[2]), b: e.nd(vs[3])}
-		return &V{e: vs[idx].e, n: &Node{kind: kMax, a: m1, b: m2}}
+		return e.tv(&V{e: vs[idx].e, n: &Node{kind: kMax, a: m1, b: m2}}, b0, b1, i0, i1, i2, i3)
 	}
-	return &V{e: vs[idx].e}
+	return e.tv(&V{e: vs[idx].e}, b0, b1, i0, i1, i2, i3)
 }
 func (e *Engine) IsZero(i1 frontend.Variable) frontend.Variable {
 	e.res.NOps++
-	return e.bv(e.val(i1).e.IsZero())
+	return e.tv(e.bv(e.val(i1).e.IsZero()), i1)
 }
 func (e *Engine) Cmp(i1, i2 frontend.Variable) frontend.Variable {
 	c := e.val(i1).e.Cmp(&e.val(i2).e)
 	v := new(V)
 	v.e.SetInt64(int64(c))
+	e.tv(v, i1, i2)
 	if e.mon != nil {
 		v.n = leafNode()
 	}
@@ -444,13 +508,13 @@ func (e *Engine) AssertIsEqual(i1, i2 frontend.Variable) {
 		e.mon.onEqual(e, a, b)
 	}
 	if !a.e.Equal(&b.e) {
-		e.reject(fmt.Sprintf("assertIsEqual: %s != %s", a.e.String(), b.e.String()))
+		e.rejectT(fmt.Sprintf("assertIsEqual: %s != %s", a.e.String(), b.e.String()), a, b)
 	}
 }
 func (e *Engine) AssertIsDifferent(i1, i2 frontend.Variable) {
 	e.res.NAssert++
 	if e.val(i1).e.Equal(&e.val(i2).e) {
-		e.reject("assertIsDifferent")
+		e.rejectT("assertIsDifferent", e.val(i1), e.val(i2))
 	}
 }
 func (e *Engine) AssertIsBoolean(i1 frontend.Variable) {
@@ -464,7 +528,7 @@ func (e *Engine) AssertIsBoolean(i1 frontend.Variable) {
 func (e *Engine) AssertIsLessOrEqual(v frontend.Variable, bound frontend.Variable) {
 	e.res.NAssert++
 	if e.val(v).e.Cmp(&e.val(bound).e) > 0 {
-		e.reject("assertIsLessOrEqual")
+		e.rejectT("assertIsLessOrEqual", e.val(v), e.val(bound))
 	}
 }
 func (e *Engine) Println(a ...frontend.Variable)  {}
@@ -512,6 +576,7 @@ func (e *Engine) MustBeLessOrEqCst(aBits []frontend.Variable, bound *big.Int, aF
 		}
 	}
 	if v.Cmp(bound) > 0 {
+		e.noteT(maxT(e.anyT(aBits...), e.anyT(aForDebug)))
 		e.reject("MustBeLessOrEqCst")
 	}
 }
